@@ -98,6 +98,8 @@ class ModProfile:
         variant = {m: rnd.choices(["", "_np", "_nd", "_npd"], [5, 2, 1, 1])[0] for m in nodes} if rnd.random() < 0.6 else {}
         plan = {"profile": "modules", "nodes": nodes, "deps": deps, "listed": listed, "fault": fault, "shape": shape, "cyc": cyc,
                 "variant": variant,
+                # modules that declare all their dependencies in one module_depends() call
+                "onecall": sorted(m for m in nodes if 2 <= len(deps[m]) <= 6 and rnd.random() < 0.5),
                 "stop": rnd.choice(["HUP", "HUP", "EOFLESS"])}
         return plan, self.run(plan, tag)
 
@@ -119,6 +121,8 @@ class ModProfile:
         with open(conf, "w") as f:
             f.write(text)
         env = {"VERIF_DEPS_" + m: ",".join(deps.get(m, [])) for m in nodes}
+        for m in plan.get("onecall", []):
+            env["VERIF_DEPMODE_" + m] = "1"
         h = H.Host(conf, scratch, env=env)
         res.transcript.append(("conf", text))
         res.transcript.append(("deps", deps, []))
@@ -147,6 +151,7 @@ class ModProfile:
         res.extra = {"graphs": 1, "acyclic_loadable": int(not bad), "cyclic": int(has_cycle(clo, deps)),
                      "unloadable": int(fault is not None and fault["module"] in clo),
                      "multi_path": int(self.multipath(clo, deps)), "edges": sum(len(deps[m]) for m in clo),
+                     "modules_declaring_all_dependencies_in_one_call": len([m for m in plan.get("onecall", []) if m in clo]),
                      "modules_without_postinit": sum(1 for m in clo if plan.get("variant", {}).get(m, "") in ("_np", "_npd")),
                      "modules_without_destructor": sum(1 for m in clo if plan.get("variant", {}).get(m, "") in ("_nd", "_npd"))}
         pos = {}
